@@ -9,6 +9,7 @@ import Emboss.Lemmas.Lr1Examples
 import Emboss.Lemmas.Lr1Fast
 import Emboss.Lemmas.Lr1Term
 import Emboss.Lemmas.Lr1GenValid
+import Emboss.Lemmas.Lr1GenFuelBfs
 import Emboss.Lemmas.Lr1TermCex
 import Emboss.Lemmas.Lr1EmbossRuns
 namespace Emboss.Lr1
@@ -143,6 +144,27 @@ theorem C08_gen_correct {G : Grammar} {o : Gen.Out} (h : gen G = some o) (hW : W
   have hv := C08_gen_valid h hW hc
   ⟨fun _ t => C08_accepts_iff hv t, fun _ _ _ h₁ h₂ => C08_unambiguous hv h₁ h₂,
     fun w fuel m => C08_safe hv w fuel m⟩
+
+/-- **Level B: the fuel bounds suffice.**  The generator model never answers "out of fuel": the FIRST
+iteration stops within `n·(n+1) + 2` rounds (`n` = number of symbol codes: every round that does not
+stop adds a (nonterminal, terminal-or-ε) fact), every worklist closure within
+`|rules|·(maxrhs+1)·n + |seed|` iterations (only dot-0 items are added, each once), and the
+breadth-first construction within `2 ^ (|rules|·(maxrhs+1)·n) + 2` steps (states are pairwise
+different sorted duplicate-free lists of items, i.e. sublists of the sorted list of all items). -/
+theorem C08_gen_fuel_sufficient {G : Grammar} (hW : WfG G) : ∃ o, gen G = some o :=
+  gen_some hW
+
+/-- **Level B, in one statement.**  For every grammar that does not use the reserved symbols the
+generator model returns tables, and they either carry the conflict flag or validate — hence
+(`C08_accepts_iff`, `C08_unambiguous`, `C08_safe`, `C08_error_position`) parse exactly the
+grammar's language. -/
+theorem C08_gen_total {G : Grammar} (hW : WfG G) :
+    ∃ o, gen G = some o ∧ (o.conflicts = true ∨ Valid G o.aut o.cert) := by
+  obtain ⟨o, h⟩ := C08_gen_fuel_sufficient hW
+  refine ⟨o, h, ?_⟩
+  cases hc : o.conflicts with
+  | true => exact Or.inl rfl
+  | false => exact Or.inr (C08_gen_valid h hW hc)
 
 /-- **Level B: ambiguous grammars are reported.**  If some token string has two different
 derivations, the generator model reports conflicts. -/
